@@ -728,6 +728,7 @@ func (fc *fileCtx) rewriteSelect(sel *ast.SelectStmt, anchor token.Pos) {
 		text string
 	}
 	var hdrs []hdr
+	giveUp := ""
 	for i, c := range sel.Body.List {
 		cc := c.(*ast.CommClause)
 		bind := ""
@@ -737,13 +738,15 @@ func (fc *fileCtx) rewriteSelect(sel *ast.SelectStmt, anchor token.Pos) {
 		case *ast.ExprStmt:
 			u, ok := unparen(comm.X).(*ast.UnaryExpr)
 			if !ok || u.Op != token.ARROW {
-				fatal("%s: unexpected select case", site)
+				giveUp = "unexpected case shape"
+				continue
 			}
 			cases = append(cases, fmt.Sprintf("simrt.Recv(%s)", fc.text(u.X)))
 		case *ast.AssignStmt:
 			u, ok := unparen(comm.Rhs[0]).(*ast.UnaryExpr)
 			if !ok || u.Op != token.ARROW {
-				fatal("%s: unexpected select case", site)
+				giveUp = "unexpected case shape"
+				continue
 			}
 			cases = append(cases, fmt.Sprintf("simrt.Recv(%s)", fc.text(u.X)))
 			isBlank := func(e ast.Expr) bool { id, ok := e.(*ast.Ident); return ok && id.Name == "_" }
@@ -751,7 +754,8 @@ func (fc *fileCtx) rewriteSelect(sel *ast.SelectStmt, anchor token.Pos) {
 				if !isBlank(comm.Lhs[0]) {
 					ts, ok := fc.typeString(fc.info.TypeOf(u))
 					if !ok {
-						fatal("%s: cannot name the type of the received value", site)
+						giveUp = "type of the received value cannot be named in this file"
+						continue
 					}
 					v := fc.text(comm.Lhs[0])
 					bind += fmt.Sprintf(" var %s %s; _sims.Into(&%s);", v, ts, v)
@@ -768,9 +772,18 @@ func (fc *fileCtx) rewriteSelect(sel *ast.SelectStmt, anchor token.Pos) {
 				}
 			}
 		default:
-			fatal("%s: unexpected select case %T", site, cc.Comm)
+			giveUp = "unexpected case statement"
+			continue
 		}
 		hdrs = append(hdrs, hdr{cc, fmt.Sprintf("case %d:%s", i, bind)})
+	}
+	if giveUp != "" {
+		// leave the statement native (the Go runtime then chooses among ready cases); a delay point still goes in front
+		fc.insert(anchor, fc.yieldCall(site, "")+"; ")
+		rep.Uninstrumentd = append(rep.Uninstrumentd, "select("+giveUp+") "+site)
+		fc.covered[sel] = true
+		markComm()
+		return
 	}
 	fc.replace(sel.Pos(), sel.Body.Lbrace+1, fmt.Sprintf("switch _sims := simrt.Select(%q, %s); _sims.I {", site, strings.Join(cases, ", ")))
 	for _, h := range hdrs {
